@@ -57,9 +57,12 @@ MANIFEST = {
                 "or destroyed in that slot during the operation and its key is unchanged - or all its member objects were destroyed; never relocated), "
                 "insert_keeps_all and remove_keeps_others (sharp per-step forms: an insertion removes/relocates nothing, remove(iterator) destroys exactly "
                 "the designated element), swap_hands_over, blocks_stay (no step other than a destructor / Array::reserve frees a block), pool_in_place / pool_ops_in_place (PoolList/PoolMap operations emit no copy construction of an "
-                "element and no assignment). The harness checks on the real headers after every op that each element is the same object (serial) at the "
-                "address recorded in the ledger, that the iterator saved when it was first seen and find(key) still designate it, or that it was constructed "
-                "by this very op; the Python reference predicts exactly which elements are new; long histories with long-lived elements and the three "
+                "element and no assignment), removal_only_destroys (remove/clear emit only destructor calls), assign_only_value, overwrite_same_key "
+                "(the only assignment targets the value object of the item carrying the inserted key; keys are never assigned). The harness checks on the real "
+                "headers after every op, for every element of all seven containers, that it is the same object (serial) at the address recorded in the ledger, "
+                "that it still carries the key / payload it had when first seen (an element assigned into another node counts as moved), that the iterator saved "
+                "when it was first seen and find(key) still designate it, or that it was constructed by this very op; assignments to and copies from "
+                "container-held objects are counted per op and compared with model and reference; the Python reference predicts exactly which elements are new; long histories with long-lived elements and the three "
                 "client patterns (Server pools, Future contexts, Callback slots).",
         "note": _COMMON_NOTE,
         "design_ref": "DESIGN.md 3/C05",
